@@ -326,7 +326,11 @@ func (c *Ctx) rulesC17() {
 		if tf.Pkg == nil || !strings.HasPrefix(relPkg(tf.Pkg.Pkg.Path()), ph) || f.Name() != "TransitionEnd" || f.Parent() != nil {
 			continue
 		}
-		for _, w := range writesOfFieldIn(f, fMTT) {
+		var ws []fieldWrite
+		for _, hf := range c.hostedFns(f) {
+			ws = append(ws, writesOfFieldIn(hf, fMTT)...)
+		}
+		for _, w := range ws {
 			nrec++
 			good := derives(w.Val, func(x ssa.Value) bool { return fieldOf(x) == fTA || loadOfField(x) == fTA })
 			c.check(good, "C17.rec", funcKey(f)+" records tracked times from tx.TimeAfter", w.Instr.Pos(), "the stored MTimeTracked does not derive from the transition's TimeAfter: "+render(w.Val))
@@ -345,9 +349,13 @@ func (c *Ctx) rulesC17() {
 		if tf.Pkg == nil || !strings.HasPrefix(relPkg(tf.Pkg.Pkg.Path()), ph) || f.Name() != "TransitionEnd" || f.Parent() != nil {
 			continue
 		}
-		for i, w := range writesOfFieldIn(f, fMTT) {
+		var ws []fieldWrite
+		for _, hf := range c.hostedFns(f) {
+			ws = append(ws, writesOfFieldIn(hf, fMTT)...)
+		}
+		for i, w := range ws {
 			nchk++
-			c.requireGuards("C17.chk", fmt.Sprintf("%s record%s", funcKey(f), nth(i)), w.Instr, gFieldTruth("!Mutation.IsCheck", fIsCheck, false))
+			c.requireGuardsHosted("C17.chk", fmt.Sprintf("%s record%s", funcKey(f), nth(i)), w.Instr, f, gFieldTruth("!Mutation.IsCheck", fIsCheck, false))
 		}
 	}
 	if nchk < 3 {
